@@ -129,7 +129,7 @@ fn case(item: u64, rng: &mut Rng, acc: &mut Acc, quick: bool) {
             fails.push(format!("coordinates {:?} influence nothing", bits(all & !union_all)));
         }
         acc.count("taint_samples_checked");
-        if item < 2 && ne == 3 {
+        if acc.samples.is_empty() {
             acc.sample(json!({"graph": su.g.describe(), "dimension": n, "data(u,v,jacobian)": bits(uvj), "control": bits(control), "data(lambda)": bits(m.lambda.data),
                               "data(q)": m.q.iter().flatten().map(|c| bits(c.data)).collect::<Vec<_>>(), "data(k[0][0])": bits(o.k[0][0].data)}));
         }
